@@ -17,7 +17,7 @@ const NAMES: [&str; 8] = ["a", "foo", "x1", "Bar-2", "a.b", "secretive-turn", "C
 fn tree(r: &mut Rng, depth: usize, floats: bool, instr: &[String]) -> SItem {
     if depth == 0 || r.chance(2, 5) {
         match r.below(if floats { 6 } else { 5 }) {
-            0 => SItem::Int(*r.pick(&[0, 1, -1, 7, 42, i32::MAX, i32::MIN, -1000])),
+            0 => SItem::Int(if r.bool() { *r.pick(&[0, 1, -1, 7, 42, i32::MAX, i32::MIN, -1000, 16777217, i32::MIN + 1]) } else { crate::gen::int(r, crate::gen::Vals::Mixed) }),
             1 => SItem::Bool(r.bool()),
             2 => SItem::Name(r.pick(&NAMES).to_string()),
             3 | 4 => SItem::Instr(r.pick(instr).clone()),
